@@ -25,7 +25,8 @@ class Case(object):
                  checks='func', leak=False, backend='sat', timeout=300,
                  mem_gb=8, funcs=None, desc='', bounds=None, extra_flags=None,
                  safety_owner='C11', unwind_owner=None, object_bits=None,
-                 malloc_may_fail=False, family=None, reach_optional=False):
+                 malloc_may_fail=False, family=None, reach_optional=False, instrument=None):
+        self.instrument = instrument or []   # list of goto-instrument argument lists applied to the goto binary
         self.cid = cid
         self.harness = harness            # path relative to /verif/harness
         self.defines = dict(defines or {})
@@ -138,8 +139,58 @@ class Result(object):
     pass
 
 
+class SmtCase(Case):
+    """a pure SMT-LIB lemma (ref/<file>.smt2) that must be unsat on every listed solver; the lines marked ';;NEG'
+    carry the negated claim - with them removed the rest must be sat (vacuity guard)."""
+    def __init__(self, cid, smt2, solvers, timeout=120, funcs=None, desc=''):
+        Case.__init__(self, cid, smt2, timeout=timeout, funcs=funcs, desc=desc, backend='+'.join(s.split()[0] for s in solvers))
+        self.smt2 = smt2
+        self.solvers = solvers
+        self.family = 'smt-lemma'
+
+    def cbmc_flags(self):
+        return []
+
+
+def solve_smt(case, workdir):
+    r = {'case': case.cid, 'family': case.family, 'desc': case.desc, 'defines': {}, 'status': None, 'failures': [], 'reach_ok': [], 'reach_missing': [],
+         'covered': [], 'n_props': 1, 'wall_s': 0.0, 'solver_wall_s': 0.0, 'backend': case.backend, 'cbmc_cmd': ' | '.join('%s ref/%s' % (s, case.smt2) for s in case.solvers)}
+    os.makedirs(workdir, exist_ok=True)
+    src = open(os.path.join(VERIF, 'ref', case.smt2)).read()
+    sane = os.path.join(workdir, 'sane.smt2')
+    open(sane, 'w').write('\n'.join(l for l in src.splitlines() if ';;NEG' not in l))
+    full = os.path.join(VERIF, 'ref', case.smt2)
+    verdicts = []
+    for sv in case.solvers:
+        rc, out, err, wall, rss, to = run(sv.split() + [full], case.timeout, 8)
+        r['wall_s'] += wall
+        r['solver_wall_s'] += wall
+        v = 'timeout' if to else ('error' if '(error' in out + err else out.strip().split('\n')[-1].strip() if out.strip() else 'error')
+        verdicts.append(v)
+    rc, out, err, wall, rss, to = run(case.solvers[0].split() + [sane], case.timeout, 8)
+    if out.strip().split('\n')[-1].strip() == 'sat':
+        r['reach_ok'].append('premises-satisfiable')
+    else:
+        r['reach_missing'].append('premises-satisfiable')
+    r['verdicts'] = verdicts
+    if r['reach_missing']:
+        r['status'] = 'vacuous'
+        r['detail'] = 'premises unsatisfiable'
+    elif all(v == 'unsat' for v in verdicts):
+        r['status'] = 'holds'
+    elif any(v == 'sat' for v in verdicts):
+        r['status'] = 'cex'
+        r['failures'].append({'pid': case.cid, 'desc': case.desc, 'kind': 'assert', 'owner': case.safety_owner, 'tag': case.cid, 'line': None, 'inputs': None})
+    else:
+        r['status'] = 'inconclusive'
+        r['detail'] = 'solver verdicts: %s' % verdicts
+    return r
+
+
 def solve_case(case, workdir, prop_id, want_trace=True):
     """Build + run one case. Returns a dict."""
+    if isinstance(case, SmtCase):
+        return solve_smt(case, workdir)
     r = {'case': case.cid, 'family': case.family, 'desc': case.desc, 'defines': case.defines,
          'status': None, 'failures': [], 'reach_ok': [], 'reach_missing': [], 'covered': [],
          'n_props': 0, 'wall_s': 0.0, 'solver_wall_s': 0.0, 'backend': case.backend}
@@ -154,6 +205,16 @@ def solve_case(case, workdir, prop_id, want_trace=True):
         r['status'] = 'build_error'
         r['detail'] = (out + err)[-3000:]
         return r
+    for k, ins in enumerate(case.instrument):
+        gb2 = os.path.join(workdir, 'h%d.gb' % k)
+        rc, out, err, wall, rss, to = run(['goto-instrument'] + list(ins) + [gb, gb2], 300, 8)
+        r['wall_s'] += wall
+        if rc != 0 or not os.path.exists(gb2):
+            r['status'] = 'build_error'
+            r['detail'] = 'goto-instrument %s: %s' % (ins, (out + err)[-2000:])
+            return r
+        r['build_cmd'] += ' && goto-instrument %s' % ' '.join(ins)
+        gb = gb2
     cmd = ['cbmc', gb] + case.cbmc_flags()
     r['cbmc_cmd'] = ' '.join(cmd)
     rc, out, err, wall, rss, to = run(cmd, case.timeout, case.mem_gb, cwd=workdir)
@@ -208,17 +269,21 @@ def solve_case(case, workdir, prop_id, want_trace=True):
         r['status'] = 'cex'
     else:
         r['status'] = 'holds'
-    # traces for failures (one per distinct tag, max 3)
+    # traces for failures: one more full run with --trace, traces picked per failing property id
     if r['status'] == 'cex' and want_trace:
-        seen = set()
-        for f in r['failures']:
-            if f['tag'] in seen or len(seen) >= 3:
-                continue
-            seen.add(f['tag'])
-            tcmd = ['cbmc', gb] + case.cbmc_flags() + ['--property', f['pid'], '--trace', '--json-ui']
-            rc2, out2, err2, wall2, rss2, to2 = run(tcmd, case.timeout, case.mem_gb, cwd=workdir)
-            r['wall_s'] += wall2
-            f['inputs'] = extract_inputs(out2) if not to2 else None
+        prio = {'assert': 0, 'builtin': 1, 'unwind': 2}
+        wanted, seen = [], set()
+        for f in sorted(r['failures'], key=lambda f: prio.get(f['kind'], 3)):
+            if f['tag'] not in seen and len(wanted) < 4:
+                seen.add(f['tag'])
+                wanted.append(f)
+        tcmd = ['cbmc', gb] + case.cbmc_flags() + ['--trace', '--json-ui']
+        rc2, out2, err2, wall2, rss2, to2 = run(tcmd, case.timeout * 2, case.mem_gb, cwd=workdir)
+        r['wall_s'] += wall2
+        if not to2:
+            traces = extract_inputs(out2)
+            for f in wanted:
+                f['inputs'] = traces.get(f['pid'])
     return r
 
 
@@ -226,17 +291,20 @@ LHS_RE = re.compile(r'^vfin(\.|\[|$)')
 
 
 def extract_inputs(json_text):
-    """last leaf assignment to every vfin.* path in the trace -> {path: (binary, type)}"""
+    """{property id: {vfin path: value}} - last leaf assignment to every vfin.* path in each failing property's trace"""
+    out = {}
     try:
         d = json.loads(json_text)
     except Exception:
-        return None
-    vals = {}
+        return out
     for m in d:
         if not isinstance(m, dict) or 'result' not in m:
             continue
         for res in m['result']:
-            for st in res.get('trace', []) or []:
+            if not res.get('trace'):
+                continue
+            vals = {}
+            for st in res['trace']:
                 if st.get('stepType') != 'assignment':
                     continue
                 lhs = st.get('lhs', '')
@@ -246,7 +314,8 @@ def extract_inputs(json_text):
                 if 'binary' in v:
                     path = re.sub(r'\[(\d+)[a-zA-Z]*\]', r'[\1]', lhs)
                     vals[path] = {'bin': v['binary'], 'type': v.get('type', ''), 'data': v.get('data')}
-    return vals
+            out[res.get('property')] = vals
+    return out
 
 
 def write_replay_fill(inputs, path):
@@ -406,9 +475,7 @@ def run_property(prop, tier, cases, jobs=None, meta=None, only=None, keep=False)
             for f in r['failures']:
                 owner = f['owner']
                 if f['kind'] == 'unwind' and owner is None:
-                    inconclusive.append(r)
-                    r['detail'] = 'unwinding assertion failed (bound too small for this code): %s' % f['pid']
-                    continue
+                    owner = prop  # decided by the native replay below: non-termination/failure => violation, else inconclusive
                 k = match_known(known, owner, f['tag'], c.cid)
                 if k is not None:
                     known_hits.append((k, r, f))
@@ -441,7 +508,7 @@ def run_property(prop, tier, cases, jobs=None, meta=None, only=None, keep=False)
                 if nat['outcome'] in ('assert_failed', 'sanitizer', 'timeout', 'crash'):
                     break
             confirmed = nat is not None and nat['outcome'] in ('assert_failed', 'sanitizer', 'timeout', 'crash')
-            ub_only = any(f['kind'] in ('builtin', 'unwind') for f in fs)
+            ub_only = any(f['kind'] == 'builtin' for f in fs)
             rec = {'property': prop, 'case': c.cid, 'harness': c.harness, 'defines': c.defines,
                    'failed': {k: used[k] for k in ('pid', 'desc', 'kind', 'tag', 'line')},
                    'all_failed_tags': sorted(set(f['tag'] for f in fs)),
@@ -453,6 +520,9 @@ def run_property(prop, tier, cases, jobs=None, meta=None, only=None, keep=False)
             if confirmed or ub_only:
                 vio_lines.append('VIOLATION property=%s replay=%s' % (prop, os.path.relpath(path, VERIF)))
                 sys.stderr.write('  case=%s tags=%s native=%s\n' % (c.cid, ','.join(rec['all_failed_tags'])[:300], nat['outcome'] if nat else 'n/a'))
+            elif all(f['kind'] == 'unwind' for f in fs):
+                r['detail'] = 'unwinding assertion failed and the native replay terminated normally (loop bound too small for this code): %s' % fs[0]['pid']
+                inconclusive.append(r)
             else:
                 mismatch.append((r, used, nat, path))
         # --- evidence
